@@ -33,7 +33,49 @@ fn word_strategy() -> impl Strategy<Value = String> {
         1 => Just("$HOME".to_string()),
         1 => Just("~".to_string()),
         1 => Just("a=b".to_string()),
+        // complete glob patterns made of otherwise harmless characters
+        2 => ("[abXY01_.-]{0,3}", "[abcXYZ019]{1,3}", "[abXY01_.-]{0,3}").prop_map(|(a, b, c)| format!("{}[{}]{}", a, b, c)),
+        1 => ("[abXY01_-]{0,3}", "[abXY01_.-]{0,3}").prop_map(|(a, c)| format!("{}*{}", a, c)),
+        1 => ("[abXY01_-]{1,3}", "[abXY01_.-]{0,3}").prop_map(|(a, c)| format!("{}?{}", a, c)),
     ]
+}
+
+/// File names that a word would match if a shell took it for a glob pattern
+/// (bait placed in the directory the rendering is evaluated in).
+fn glob_bait(word: &str) -> Vec<String> {
+    if !word.chars().any(|c| matches!(c, '*' | '?' | '[')) || word.contains('/') || word.contains('\0') {
+        return vec![];
+    }
+    let mut out = vec![];
+    // every bracket expression replaced by one of its members, ? by a letter, * by nothing / a letter
+    for star in ["", "q"] {
+        let mut cand = String::new();
+        let cs: Vec<char> = word.chars().collect();
+        let mut i = 0;
+        while i < cs.len() {
+            match cs[i] {
+                '[' => {
+                    if let Some(close) = cs[i + 1..].iter().position(|c| *c == ']').map(|p| p + i + 1) {
+                        let inner: Vec<char> = cs[i + 1..close].iter().copied().filter(|c| !matches!(c, '!' | '^' | '-')).collect();
+                        if let Some(m) = inner.first() {
+                            cand.push(*m);
+                            i = close + 1;
+                            continue;
+                        }
+                    }
+                    cand.push('[');
+                }
+                '?' => cand.push('q'),
+                '*' => cand.push_str(star),
+                c => cand.push(c),
+            }
+            i += 1;
+        }
+        if !cand.is_empty() && cand != word && cand != "." && cand != ".." && !cand.starts_with('.') && cand.len() < 200 && !out.contains(&cand) {
+            out.push(cand);
+        }
+    }
+    out
 }
 
 fn prog_strategy() -> impl Strategy<Value = String> {
@@ -168,6 +210,15 @@ pub fn check_case(ctx: &Ctx, case: &QuoteCase, rep: &mut CaseReport, shells: &[&
     for st in &case.stages {
         link_vchild(&sc.dir, OsStr::new(&st[0]));
     }
+    // glob bait: if a rendering leaves a pattern unquoted the shell expands it to these names
+    for w in case.stages.iter().flatten() {
+        for b in glob_bait(w) {
+            let p = sc.dir.join(&b);
+            if !p.exists() {
+                let _ = std::fs::write(&p, b"");
+            }
+        }
+    }
     let renderings: Vec<String> = case.stages.iter().map(|s| build_exec(s).to_cmdline_lossy()).collect();
     let line = if case.stages.len() == 1 {
         let e = build_exec(&case.stages[0]);
@@ -237,7 +288,7 @@ fn replay(ctx: &Ctx, _engine: &str, case: &Value) -> CaseResult {
 pub static C19: PropDef = PropDef {
     id: "C19",
     level: "exploration",
-    rule: "proptest generates a program name (non-empty, no slash, not a shell builtin or reserved word) and 0..11 arguments over Unicode without NUL, weighted to the empty string, blanks, tab, newline, both quotes, $ ` \\ * ? [ ] ~ # = ! & | ; < > ( ) { }, leading dashes, control and non-ASCII characters; 1 stage (Exec) or 2..4 stages (Pipeline). The Debug text / to_cmdline_lossy is evaluated by a real shell (`sh <script>`, = dash; thorough also `bash --posix <script>`) with PATH pointing at a scratch directory in which each program name is a hard link of the helper that prints its argv in hex after copying its stdin; the recorded vectors, in pipeline order, must equal the originals. Non-trivial = some word needs quoting or is empty; distinct = distinct cases among those.",
+    rule: "proptest generates a program name (non-empty, no slash, not a shell builtin or reserved word) and 0..11 arguments over Unicode without NUL, weighted to the empty string, blanks, tab, newline, both quotes, $ ` \\ * ? [ ] ~ # = ! & | ; < > ( ) { }, leading dashes, control and non-ASCII characters; complete glob patterns ([..], *, ?) made of otherwise harmless characters; 1 stage (Exec) or 2..4 stages (Pipeline). For every word that would be a glob pattern, files it would match are placed in the directory of evaluation. The Debug text / to_cmdline_lossy is evaluated by a real shell (`sh <script>`, = dash; thorough also `bash --posix <script>`) with PATH pointing at a scratch directory in which each program name is a hard link of the helper that prints its argv in hex after copying its stdin; the recorded vectors, in pipeline order, must equal the originals. Non-trivial = some word needs quoting or is empty; distinct = distinct cases among those.",
     assumptions: &["dash (and bash --posix in thorough) stand for `a POSIX shell`", "environment rendering is out of scope (env left unset)"],
     engines: "real",
     workers: |_| 16,
